@@ -806,4 +806,14 @@ B('RS-arrays-sorted-key', ['C20'], 'frame.py', 'Frame.relabel_shift_out',
 N('RS-labels-listcomp', ['C20'], 'frame.py', 'Frame.relabel_shift_out',
   'new_labels = (label_src[i] for i in depth_level)', 'new_labels = [label_src[pos] for pos in depth_level]')
 
+# ---------------------------------------------------------------------------------- record width (C16)
+B('RW-header-one-short', ['C16'], 'frame.py', 'Frame._to_str_records',
+  "                        for col_idx in range(index_depth):\n                            row.append(f'{columns_names[row_idx]}' if col_idx == 0 else '')",
+  "                        row.append(f'{columns_names[row_idx]}')\n                        row.extend(('' for _ in range(1, index_depth - 1)))", 'I.record-width', '_to_str_records')
+B('RW-blank-apex-one-long', ['C16'], 'frame.py', 'Frame._to_str_records',
+  "                        row.extend(('' for _ in range(index_depth)))", "                        row.extend(('' for _ in range(index_depth + 1)))", 'I.record-width', '_to_str_records')
+N('RW-header-append-plus-extend', ['C16'], 'frame.py', 'Frame._to_str_records',
+  "                        for col_idx in range(index_depth):\n                            row.append(f'{columns_names[row_idx]}' if col_idx == 0 else '')",
+  "                        row.append(f'{columns_names[row_idx]}')\n                        row.extend(('' for _ in range(1, index_depth)))")
+
 VARIANTS = V
